@@ -15,6 +15,7 @@ CONSTANTS
   MaxAtt = 2
   Crashes = FALSE
   StartBy = 1
+  HealOdds = 3
 VIEW View
 INVARIANTS TypeOK InvExclusion InvHolderHasFile InvNotStale InvFresh
 CHECK_DEADLOCK FALSE
